@@ -346,7 +346,7 @@ func runEnumerations(P *Program, S *Specs, prop string) ([]*Obligation, []string
 		allowed := map[string]bool{}
 		for _, a := range en.Args[2:] {
 			a = strings.TrimSuffix(strings.TrimSpace(a), ",")
-			if a == "" {
+			if a == "" || a == "nowhere" {
 				continue
 			}
 			if !strings.Contains(a, ".") || strings.HasPrefix(a, "(") {
@@ -423,6 +423,23 @@ func runEnumerations(P *Program, S *Specs, prop string) ([]*Obligation, []string
 					out = append(out, o)
 				}
 			}
+		}
+		if found == 0 && len(en.Args) == 3 && en.Args[2] == "nowhere" {
+			// "in nowhere": the target must have no site at all; to keep the clause from silently
+			// detaching, the target itself has to exist in the program
+			exists := P.Funcs[target] != nil
+			for k := range P.Funcs {
+				if k == target || strings.HasSuffix(k, "."+strings.TrimPrefix(target, "ice.")) {
+					exists = true
+				}
+			}
+			st, goal, src := "unsat", "true", en.Src
+			if !exists && en.Kind == "calls" {
+				st, goal, src = "unbound", "false", "enumerate target does not exist (renamed?): "+target
+			}
+			out = append(out, &Obligation{Name: fmt.Sprintf("enumerate/%s.%s/site-enum#nowhere", en.Kind, target), Props: en.Props, Kind: "site-enum", Status: st, Goal: goal, Reach: "true",
+				Src: src, Backend: "syntactic (SSA scan)"})
+			continue
 		}
 		if found == 0 {
 			out = append(out, &Obligation{Name: fmt.Sprintf("enumerate/%s.%s/contract-binding", en.Kind, target), Props: en.Props, Kind: "contract-binding", Status: "unbound", Goal: "false", Reach: "true",
